@@ -1,13 +1,14 @@
 ---------------------------- MODULE TraceStream ----------------------------
 (* Trace validation of recorded stream sessions against StreamObs (same scheme as TraceConn). *)
-EXTENDS StreamObs, Json, TLC
+EXTENDS StreamObs, Json, TLC, FiniteSets
 
 Trace == ndJsonDeserialize("trace.ndjson")
 VARIABLES l, viol
 tvars == <<s, l, viol>>
 
 TraceInit == s = InitVal /\ l = 1 /\ viol = {} /\ TLCSet(1, <<0, {}>>)
-Judge(ev, V) == viol' = viol \cup {<<ev.t, l, r>> : r \in V}
+\* (bounded: a build in which almost every event breaks a rule would otherwise make every state carry an ever larger set)
+Judge(ev, V) == viol' = IF Cardinality(viol) < 400 THEN viol \cup {<<ev.t, l, r>> : r \in V} ELSE viol
 
 Step(ev) ==
     CASE ev.e = "Init" -> s' = InitVal /\ UNCHANGED viol
